@@ -1,7 +1,6 @@
 package rules
 
 // NotApplicable: properties that are not claimed, with the reason. Entries for
-// properties that are in the Registry are ignored.
-var NotApplicable = map[string]string{
-	"C06": "equates every entry of the merged vector clock with a graph quantity (max sequence / fork existence) for all DAGs and indexing orders; no sound static argument in reach bounds those runtime values, and the only structural facts (fork marker absorbing, consumers use the merged API) are decided under C03 — claiming C06 through them would misstate what is decided",
-}
+// properties that are in the Registry are ignored. (C06 was listed here until its structural
+// necessary conditions were split out and claimed at level "other", see c06.go.)
+var NotApplicable = map[string]string{}
